@@ -1074,12 +1074,18 @@ fn eq(lhs: &Value, rhs: &Value) -> StdResult<bool, (String, String, String)> {
                 return Ok(true);
             }
 
-            if lock_deref!(xs).len() != lock_deref!(ys).len() {
+            // We copy the items out of both lists before recursing so that no
+            // lock is held while the nested values, which may include `xs` or
+            // `ys` themselves, are being compared.
+            let xs_items = lock_deref!(xs).clone();
+            let ys_items = lock_deref!(ys).clone();
+
+            if xs_items.len() != ys_items.len() {
                 return Ok(false);
             }
 
-            for (i, x) in lock_deref!(xs).iter().enumerate() {
-                let y = &lock_deref!(ys)[i];
+            for (i, x) in xs_items.iter().enumerate() {
+                let y = &ys_items[i];
 
                 let equal =
                     match eq(&x.v, &y.v) {
@@ -1104,14 +1110,18 @@ fn eq(lhs: &Value, rhs: &Value) -> StdResult<bool, (String, String, String)> {
                 return Ok(true);
             }
 
-            if lock_deref!(xs).len() != lock_deref!(ys).len() {
+            // As with lists, we copy the properties out of both objects so
+            // that no lock is held while nested values are being compared.
+            let xs_props = lock_deref!(xs).clone();
+            let ys_props = lock_deref!(ys).clone();
+
+            if xs_props.len() != ys_props.len() {
                 return Ok(false);
             }
 
-            for (k, x) in &lock_deref!(xs) {
-                let ys = &lock_deref!(ys);
+            for (k, x) in &xs_props {
                 let y =
-                    if let Some(y) = ys.get(k) {
+                    if let Some(y) = ys_props.get(k) {
                         y
                     } else {
                         return Ok(false);
